@@ -186,6 +186,16 @@ func (c *checkCtx) instantiationsFor(fn *ssa.Function, short string, used map[st
 			}
 		}
 	}
+	if c.tier != "thorough" && n == 2 && objParam < 0 {
+		// the repository only instantiates these with equal prefix types; one mixed instantiation each way
+		// keeps "count prefix" and "element prefix / element type" apart also in the quick tier
+		if strings.Contains(short, "StringList") {
+			add(typeList("uint16", "uint8"))
+			add(typeList("uint8", "uint16"))
+		} else {
+			add(typeList("uint8", "int32"))
+		}
+	}
 	if c.tier != "thorough" && len(out) == 0 {
 		out = append(out, nil)
 	}
